@@ -39,10 +39,14 @@ def build(spec, osyris):
     if k == "num":
         return spec["v"]
     if k == "npf":
-        return np.float64(spec["v"])
+        # a numpy scalar: np.float64 (a python float subclass) unless another scalar type is named
+        return np.dtype(spec.get("dt", "float64")).type(spec["v"])
     if k == "nd":
         return np_values(spec)
     if k == "Q":
+        if spec.get("pyscalar") and not spec["shape"]:
+            # a Quantity whose magnitude is a plain python number
+            return np_values(spec).item() * osyris.units(spec["unit"])
         return np_values(spec) * osyris.units(spec["unit"])
     raise ValueError(k)
 
@@ -55,8 +59,10 @@ def model_of(spec):
         return (v if np.iscomplexobj(v) else v.astype(np.float64)), um.parse(spec["unit"])
     if k == "V":
         return [np_values(c).astype(np.float64) for c in spec["comps"]], um.parse(spec["comps"][0]["unit"])
-    if k in ("num", "npf"):
+    if k == "num":
         return np.float64(spec["v"]), um.ONE
+    if k == "npf":
+        return np.float64(np.dtype(spec.get("dt", "float64")).type(spec["v"])), um.ONE
     if k == "nd":
         return np_values(spec).astype(np.float64), um.ONE
     raise ValueError(k)
@@ -64,8 +70,8 @@ def model_of(spec):
 
 # ------------------------------------------------------------------ strategies
 @st.composite
-def magnitudes(draw, dtype, n, specials=False, allow_zero=True, lo=-3, hi=3, positive=False):
-    """n numbers with |x| in {0} u 10^[lo,hi]; integer-valued for int dtypes."""
+def magnitudes(draw, dtype, n, specials=False, allow_zero=True, lo=-3, hi=3, positive=False, int_hi=1000):
+    """n numbers with |x| in {0} u 10^[lo,hi]; integer-valued (1..int_hi) for int dtypes."""
     if dtype.startswith("complex"):
         re = draw(magnitudes("float64", n, allow_zero=allow_zero, lo=lo, hi=hi, positive=positive))
         im = draw(magnitudes("float64", n, allow_zero=True, lo=lo, hi=hi))
@@ -81,7 +87,7 @@ def magnitudes(draw, dtype, n, specials=False, allow_zero=True, lo=-3, hi=3, pos
             out.append(0 if isint else 0.0)
             continue
         if isint:
-            v = draw(st.integers(1, 1000))
+            v = draw(st.integers(1, int_hi))
         else:
             e = draw(st.floats(lo, hi))
             v = float(np.dtype(dtype).type(10.0 ** e))
@@ -110,12 +116,12 @@ def nelem(shape):
 
 @st.composite
 def array_specs(draw, units=None, dtypes=DTYPES, shape=None, specials=False, positive=False,
-                allow_zero=True, kind="A", lo=-3, hi=3):
+                allow_zero=True, kind="A", lo=-3, hi=3, int_hi=1000):
     dtype = draw(st.sampled_from(dtypes))
     shp = draw(shapes) if shape is None else list(shape)
     unit = draw(st.sampled_from(units if units is not None else um.ALL_UNITS))
     vals = draw(magnitudes(dtype, nelem(shp), specials=specials, positive=positive,
-                           allow_zero=allow_zero, lo=lo, hi=hi))
+                           allow_zero=allow_zero, lo=lo, hi=hi, int_hi=int_hi))
     spec = {"k": kind, "dtype": dtype, "shape": shp, "vals": vals}
     if kind in ("A", "Q"):
         spec["unit"] = unit
@@ -123,12 +129,14 @@ def array_specs(draw, units=None, dtypes=DTYPES, shape=None, specials=False, pos
 
 
 @st.composite
-def vector_specs(draw, units=None, dtypes=DTYPES, shape=None, nvec=None, **kw):
+def vector_specs(draw, units=None, dtypes=DTYPES, shape=None, nvec=None, mixed_dtypes=False, **kw):
+    """mixed_dtypes: the components of one Vector may be stored with different dtypes (Vector(int Array, float Array))"""
     nv = draw(st.integers(1, 3)) if nvec is None else nvec
     first = draw(array_specs(units=units, dtypes=dtypes, shape=shape, **kw))
     comps = [first]
     for _ in range(nv - 1):
-        c = draw(array_specs(units=[first["unit"]], dtypes=[first["dtype"]], shape=first["shape"], **kw))
+        dts = DTYPES if (mixed_dtypes and draw(st.booleans())) else [first["dtype"]]
+        c = draw(array_specs(units=[first["unit"]], dtypes=dts, shape=first["shape"], **kw))
         comps.append(c)
     return {"k": "V", "comps": comps}
 
